@@ -127,6 +127,9 @@ func judgeFaultFree(sc *scenario, res *result) []violation {
 	if res.TimedOut {
 		return nil
 	}
+	if sc.AnyOutcome {
+		return vs
+	}
 	if sc.ExpectFail && !res.failed() {
 		vs = append(vs, violation{"exit-0-on-unprocessable-input", "the input cannot be processed, yet the exit status is 0 (output: " + firstLine(res.Output) + ")"})
 	}
